@@ -444,7 +444,7 @@ func scenarios(quick bool) []scenario {
 		}
 	}
 	// 2 threads: unbounded; 3 threads: unbounded when small, else preemption-bounded
-	pb3, pb4, pb5 := 3, 2, 0
+	pb3, pb4, pb5 := 2, 1, 0
 	if !quick {
 		pb3, pb4, pb5 = -1, 3, 2
 	}
